@@ -96,3 +96,9 @@ func verifYield(site string) {
 		(*f)(site)
 	}
 }
+
+// VerifNewFilterSubscription builds a filtered subscription on any parent
+// Subscription: the constructor behind SubscribeWithFilter / SubscribeForFilter.
+func VerifNewFilterSubscription(log logutil.Log, parent Subscription, f filter.Filter, deferReady bool) FilterSubscription {
+	return newFilterSubscription(log, parent, f, deferReady)
+}
